@@ -154,3 +154,8 @@ Fixpoint first_diff (a b : text) (i : nat) : option nat :=
   | x :: a', y :: b' => if ascii_eqb x y then first_diff a' b' (S i) else Some i
   | _, _ => Some i
   end.
+
+(* ---- the library's reader drops blank lines (pandas skip_blank_lines=True): a record that is one empty unquoted field ---- *)
+Definition is_blank_row (r : list field) : bool := match r with [FU []] => true | _ => false end.
+Definition parse_csv_skip_blank (s : text) : list (list field) := filter (fun r => negb (is_blank_row r)) (parse_csv s).
+Definition no_blank_rows (t : list (list field)) : bool := forallb (fun r => negb (is_blank_row r)) t.
